@@ -104,8 +104,14 @@ func writeRun(w *bufio.Writer, run int, desc map[string]any, log *traceLog, quie
 	}
 	emit(head)
 	kinds := map[string]bool{}
+	startedIDs := map[uint64]bool{}
 	for _, e := range log.events {
 		stats[e.E]++
+		if e.E == "start" {
+			startedIDs[e.ID] = true
+		} else if e.E == "end" && !startedIDs[e.ID] {
+			stats["stray_ends"]++ // EndTask of an ID never started (reset helpers do this by design): counted, not judged
+		}
 		switch e.E {
 		case "start":
 			kinds[e.Kind] = true
@@ -114,7 +120,7 @@ func writeRun(w *bufio.Writer, run int, desc map[string]any, log *traceLog, quie
 		case "end":
 			emit(map[string]any{"e": "end", "id": idOf(e.ID), "comp": e.Comp, "t": rank[e.T], "ps": fmt.Sprint(e.T)})
 		default:
-			emit(map[string]any{"e": e.E, "id": idOf(e.ID), "what": e.What, "comp": e.Comp, "t": rank[e.T], "ps": fmt.Sprint(e.T)})
+			emit(map[string]any{"e": e.E, "id": idOf(e.ID), "what": e.What, "mkind": e.Kind, "comp": e.Comp, "t": rank[e.T], "ps": fmt.Sprint(e.T)})
 		}
 	}
 	if quiescent {
